@@ -993,6 +993,19 @@ impl<'a> FormatterImpl<'a> {
             }
             self.line_state.line_buffer.push_str(syntax_node.get_text(self.db).trim());
             self.line_state.prevent_next_space = spacing_data.prevent_space_after;
+            // If the verbatim text ends with a comment, whatever follows must start a new line,
+            // otherwise it becomes part of that comment.
+            if let Some(last_terminal) = syntax_node.tokens(self.db).last()
+                && let [_, _, trailing] = last_terminal.get_children(self.db)
+                && !self.has_only_whitespace_trivia(trailing)
+            {
+                self.line_state.line_buffer.push_break_line_point(BreakLinePointProperties::new(
+                    usize::MAX,
+                    BreakLinePointIndentation::NotIndented,
+                    false,
+                    false,
+                ));
+            }
         } else if syntax_node.kind(self.db).is_terminal() {
             self.format_terminal(syntax_node);
         } else {
